@@ -27,6 +27,50 @@ def dist(cls, ref, test, **kw) -> float:
     return float(d.compare(X=np.array(test, dtype=float))[0].distance)
 
 
+def dist_alone(cls, ref, test, **kw) -> float:
+    """the detector's stand-alone statistic with the detector's own stored parameters (what the permutation callback re-evaluates)"""
+    d = cls(**kw)
+    return float(d.statistical_method(np.array(ref, dtype=float), np.array(test, dtype=float), **d.statistical_kwargs))
+
+
+def weighted_transport(name, u, v, wu, wv):
+    allv = sorted(u + v)
+    su, sv = sum(wu), sum(wv)
+    tot = 0.0
+    for z, zn in zip(allv, allv[1:]):
+        d = abs(sum(w for x, w in zip(u, wu) if x <= z) / su - sum(w for x, w in zip(v, wv) if x <= z) / sv)
+        tot += (d if name == "emd" else d * d) * (zn - z)
+    return tot if name == "emd" else math.sqrt(2 * tot)
+
+
+def check_detector_kwargs(out: Outcome, rng, ref, test, nb) -> None:
+    """detector-level options are part of the configuration: the distance compare returns and the stand-alone statistic must both use them"""
+    rep = {"ref": ref, "test": test, "num_bins": nb}
+    plain = prob_formula("js", ref, test, nb)
+    if not math.isnan(plain) and plain > 1e-6:
+        for base in (2.0, 10.0):
+            want = plain / math.sqrt(math.log(base))
+            r = {**rep, "detector": "js", "kwargs": {"base": base}}
+            got = dist(JS, ref, test, num_bins=nb, base=base)
+            alone = dist_alone(JS, ref, test, num_bins=nb, base=base)
+            if math.isnan(got) or not approx(got, want):
+                out.violation(f"js(base={base}): distance {got!r} differs from the Jensen-Shannon distance in that base {want!r}", r)
+            if math.isnan(alone) or not approx(alone, want):
+                out.violation(f"js(base={base}): stand-alone statistic with the detector's own parameters {alone!r} differs from {want!r}", r)
+            out.case({"kwargs": "js-base", "base": base, "h": hash(tuple(ref + test)) & 0xFFFFFF})
+    wu, wv = [rng.choice([0.5, 1.0, 2.0, 3.5]) for _ in ref], [rng.choice([0.5, 1.0, 2.0, 3.5]) for _ in test]
+    for name, cls in TRANSPORT.items():
+        want = weighted_transport(name, ref, test, wu, wv)
+        r = {**rep, "detector": name, "kwargs": {"u_weights": wu, "v_weights": wv}}
+        got = dist(cls, ref, test, u_weights=np.array(wu), v_weights=np.array(wv))
+        alone = dist_alone(cls, ref, test, u_weights=np.array(wu), v_weights=np.array(wv))
+        if math.isnan(got) or not approx(got, want):
+            out.violation(f"{name} with sample weights: distance {got!r} differs from the weighted formula {want!r}", r)
+        if math.isnan(alone) or not approx(alone, want):
+            out.violation(f"{name} with sample weights: stand-alone statistic with the detector's own parameters {alone!r} differs from {want!r}", r)
+        out.case({"kwargs": name + "-weights", "h": hash(tuple(ref + test)) & 0xFFFFFF})
+
+
 def proportions(ref, test, nb):
     lo, hi = min(ref + test), max(ref + test)
     if lo == hi:
@@ -139,6 +183,9 @@ def check_pair(out: Outcome, rng, ref, test, nb, lines, expect) -> None:
     for name, cls in {**BINNED, **PROB, **TRANSPORT}.items():
         kw = {} if name in TRANSPORT else {"num_bins": nb}
         got = dist(cls, ref, test, **kw)
+        alone = dist_alone(cls, ref, test, **kw)
+        if not ((math.isnan(got) and math.isnan(alone)) or got == alone or approx(got, alone, 1e-12)):
+            out.violation(f"{name}: the stand-alone statistic with the detector's own parameters gives {alone!r}, compare returns {got!r}", {**rep, "detector": name})
         want = binned_formula(name, ref, test, nb) if name in BINNED else (prob_formula(name, ref, test, nb) if name in PROB else transport_formula(name, ref, test))
         r = {**rep, "detector": name}
         if name == "js" and degenerate:
@@ -216,6 +263,8 @@ def run(out: Outcome) -> None:
         if i % 7 == 3:
             test = list(ref) * rng.choice([1, 3])     # identical / tiled
         check_pair(out, rng, ref, test, rng.choice([2, 3, 5, 10, 17, 40]), lines, expect)
+        if i % 3 == 0:
+            check_detector_kwargs(out, rng, ref, test, rng.choice([3, 5, 10, 17]))
     if "KF-C10-1" in out.findings:
         check_pair(out, rng, [3.25] * 5, [3.25] * 5, 10, [], [])
     if "KF-C10-3" in out.findings:
@@ -225,6 +274,26 @@ def run(out: Outcome) -> None:
         check_pair(out, rng, w["ref"], w["test"], w["num_bins"], [], [])
     if "KF-C10-2" in out.findings:
         check_pair(out, rng, [11.0, 10.8, 10.1, 10.9], [3.25] * 6, 2, [], [])
+    # identical constant samples of large magnitude (counters, nanosecond timestamps): still distance 0
+    for c in (1e15, 2.0**53, 1e17, -3e18):
+        for name, cls in {**BINNED, **PROB, **TRANSPORT}.items():
+            if name == "js":
+                continue            # NaN for every constant sample: KF-C10-1
+            r = {"ref": [c] * 4, "test": [c] * 3, "num_bins": 5, "detector": name}
+            try:
+                got = dist(cls, [c] * 4, [c] * 3, **({} if name in TRANSPORT else {"num_bins": 5}))
+            except IndexError as e:
+                if abs(c) >= 2.0**53 and name not in TRANSPORT and "KF-C10-4" in out.findings:
+                    out.findings["KF-C10-4"].hits += 1
+                else:
+                    out.violation(f"{name}: IndexError for identical constant samples of value {c!r}: {e}", r)
+                continue
+            except Exception as e:  # noqa: BLE001
+                out.violation(f"{name}: {type(e).__name__} for identical constant samples of value {c!r}: {e}", r)
+                continue
+            if not abs(got) <= 1e-12:
+                out.violation(f"{name}: distance {got!r} for identical constant samples of value {c!r}, expected 0", r)
+        out.case({"huge_constant": c})
     res = run_driver(lines)
     for got, (name, val, r) in zip(res, expect):
         mv = math.inf if got == "inf" else h2f(got[1:])
